@@ -25,6 +25,16 @@ type replayTemplate struct {
 	Test       string `json:"test"`       // test function name
 	Pkg        string `json:"pkg"`        // "." or "./cmd/desync"
 	Note       string `json:"note"`
+	// Schedule: statements inserted into a scratch copy of a source file (overlay, nothing is written
+	// to /repo) after the first line matching a regexp. Only calls of delay helpers defined in the
+	// replay test are inserted: they constrain the goroutine schedule, not the behaviour.
+	Schedule []schedulePoint `json:"schedule"`
+}
+
+type schedulePoint struct {
+	File   string `json:"file"`
+	After  string `json:"after"`
+	Insert string `json:"insert"`
 }
 
 func tryReplay(eng *Engine, prop string, l *logical, seed int) (bool, map[string]interface{}) {
@@ -45,7 +55,7 @@ func tryReplay(eng *Engine, prop string, l *logical, seed int) (bool, map[string
 		if err != nil || !re.MatchString(l.Name) {
 			continue
 		}
-		ok, out := runReplay(eng.repoDir, filepath.Join(verif, "replay", t.File), t.Test, t.Pkg, seed)
+		ok, out := runReplay(eng.repoDir, filepath.Join(verif, "replay", t.File), t.Test, t.Pkg, seed, t.Schedule)
 		outcome := "REPLAY-NOT-REPRODUCED"
 		if ok {
 			outcome = "REPLAY-CONFIRMED"
@@ -55,7 +65,7 @@ func tryReplay(eng *Engine, prop string, l *logical, seed int) (bool, map[string
 	return false, map[string]interface{}{"outcome": "no replay template for this obligation"}
 }
 
-func runReplay(repo, src, test, pkg string, seed int) (bool, string) {
+func runReplay(repo, src, test, pkg string, seed int, sched []schedulePoint) (bool, string) {
 	tmp, err := os.MkdirTemp("", "gocv-replay-")
 	if err != nil {
 		return false, err.Error()
@@ -67,6 +77,32 @@ func runReplay(repo, src, test, pkg string, seed int) (bool, string) {
 	}
 	target := filepath.Join(dir, "zz_verif_replay_test.go")
 	ov := map[string]map[string]string{"Replace": {target: src}}
+	for i, sp := range sched {
+		orig := filepath.Join(dir, sp.File)
+		data, err := os.ReadFile(orig)
+		if err != nil {
+			return false, err.Error()
+		}
+		re, err := regexp.Compile(sp.After)
+		if err != nil {
+			return false, err.Error()
+		}
+		lines := strings.Split(string(data), "\n")
+		done := false
+		for k, ln := range lines {
+			if re.MatchString(ln) {
+				lines[k] = ln + "\n" + sp.Insert
+				done = true
+				break
+			}
+		}
+		if !done {
+			return false, fmt.Sprintf("schedule point %q not found in %s", sp.After, sp.File)
+		}
+		patched := filepath.Join(tmp, fmt.Sprintf("sched%d_%s", i, filepath.Base(sp.File)))
+		os.WriteFile(patched, []byte(strings.Join(lines, "\n")), 0o644)
+		ov["Replace"][orig] = patched
+	}
 	ovData, _ := json.Marshal(ov)
 	ovFile := filepath.Join(tmp, "overlay.json")
 	os.WriteFile(ovFile, ovData, 0o644)
